@@ -38,6 +38,67 @@ FAMILIES = {
     "tag-pairs": lambda n: "{% f %}{% /f %} " * n, "quotes": lambda n: "\"a\" 'b' " * n, "dots": lambda n: "a... " * n,
     "paragraphs": lambda n: "para text here.\n\n" * n, "table-rows": lambda n: "| a | b |\n|---|---|\n" + "| c | d |\n" * n,
     "unclosed-lt": lambda n: "i<n " + "word " * n,
+    "backtick-run-in-text": lambda n: "a " + "`" * n + " b\n",
+    "ref-links": lambda n: "".join(f"See [text {i}][r{i}] here.\n\n" for i in range(n // 4)) + "".join(f"[r{i}]: http://x.org/{i}\n" for i in range(n // 4)),
+    "heading-code-spaces": lambda n: "# a `x" + " " * n + "y` b\n",
+    # one tag-free paragraph whose lines LOOK like block content (rows without a delimiter row; numbers that cannot interrupt a
+    # paragraph; '#x' without a space)
+    "pipe-lines": lambda n: "| a\n" * n, "numbered-lines": lambda n: "text\n" + "".join(f"{i + 2}. x\n" for i in range(n)),
+    "hash-lines": lambda n: "text\n" + "#x y\n" * n, "sentences": lambda n: "Some words here. " * n,
+    # long runs of one character / of white space in every kind of block
+    "space-run": lambda n: "a" + " " * n + "b\n", "tab-run": lambda n: "a" + "\t" * n + "b\n", "nbsp-run": lambda n: "a" + "\u00a0" * n + "b\n",
+    "code-span-spaces": lambda n: "a `x" + " " * n + "y` b\n", "blank-lines": lambda n: "a" + "\n" * n + "b\n",
+    "trailing-spaces": lambda n: "a" + " " * n + "\nb\n", "space-lines": lambda n: "a\n" + "   \n" * n + "b\n",
+    "item-spaces": lambda n: "- a" + " " * n + "b\n", "table-cell-spaces": lambda n: "| a" + " " * n + "b |\n|---|\n| c |\n",
+    "heading-spaces": lambda n: "# a" + " " * n + "b\n", "heading-hashes": lambda n: "# a " + "#" * n + " b\n",
+    "heading-hash-words": lambda n: "# a" + " #" * n + " b\n", "setext-lines": lambda n: "a\n" * n + "===\n",
+    "dash-run": lambda n: "a " + "-" * n + " b\n", "dash-words": lambda n: "a" + " -" * n + " b\n", "dots-run": lambda n: "a" + "." * n + " b\n",
+    "quote-run": lambda n: "a " + '"' * n + " b\n", "apos-run": lambda n: "a " + "'" * n + " b\n", "underscores": lambda n: "_" * n,
+    "tildes": lambda n: "a " + "~" * n + " b", "tilde-pairs": lambda n: "~~a " * n, "colons": lambda n: ":" * n, "at-run": lambda n: "a" + "@" * n + "b",
+    "percent-run": lambda n: "{" + "%" * n + "}", "brace-run": lambda n: "{" * n, "digits": lambda n: "1" * n + ". a", "combining": lambda n: "a" + "\u0301" * n,
+    # unclosed openers and unmatched closers of every construct
+    "bang-brackets": lambda n: "![" * n, "close-brackets": lambda n: "]" * n, "parens": lambda n: "(" * n, "link-open-paren": lambda n: "[a](" * n,
+    "lt-run": lambda n: "<" * n, "lt-slash": lambda n: "</a " * n, "autolink-open": lambda n: "<http://a " * n, "close-tags": lambda n: "%} " * n,
+    "hash-brace": lambda n: "{# " * n, "footnote-open": lambda n: "[^" * n, "nested-brackets": lambda n: "[" * (n // 2) + "]" * (n // 2),
+    "nested-em": lambda n: "*a " * min(n, 150) + "b*" * min(n, 150), "star-words": lambda n: "a* " * n, "intraword": lambda n: "a*b*c " * n,
+    # many well-formed constructs
+    "amp": lambda n: "&a " * n, "entities": lambda n: "&amp; " * n, "urls": lambda n: "http://a.b/c " * n, "www": lambda n: "www.a.b " * n,
+    "emails": lambda n: "a@b.c " * n, "hard-breaks": lambda n: "a\\\n" * n + "b\n", "escapes": lambda n: "\\* " * n, "strong": lambda n: "**a** " * n,
+    "mixed-em": lambda n: "*a _b_* " * n, "images": lambda n: "![a](b) " * n, "link-titles": lambda n: '[a](b "t") ' * n,
+    "angle-dests": lambda n: "[a](<b c>) " * n, "same-ref-links": lambda n: "[a][r] " * n + "\n\n[r]: http://x\n",
+    "shortcut-refs": lambda n: "[r] " * n + "\n\n[r]: http://x\n", "ref-defs-only": lambda n: "".join(f"[r{i}]: http://x/{i}\n" for i in range(n // 4)),
+    "footnote-defs": lambda n: "".join(f"[^{i}]: x\n" for i in range(n // 4)), "dots-tags": lambda n: "a... {% t %} " * n,
+    "quotes-tags": lambda n: "\"a\" {% t \"x\" %} " * n, "apos-words": lambda n: "don't 'x' " * n, "dots-lines": lambda n: "a...\n" * n,
+    "cjk": lambda n: "\u4e2d\u6587\u5b57" * n, "cjk-sentences": lambda n: "\u8fd9\u662f\u4e00\u53e5\u8bdd\u3002" * n, "emoji": lambda n: "\U0001f600 " * n,
+    "abbrev": lambda n: "e.g. " * n, "questions": lambda n: "Why? " * n, "paren-sentences": lambda n: "(Yes.) " * n,
+    # many blocks
+    "frontmatter-lines": lambda n: "---\n" + "a: b\n" * n + "---\nx\n", "frontmatter-open": lambda n: "---\n" + "a: b\n" * n,
+    "fence-open": lambda n: "```\n" + "a\n" * n, "fences": lambda n: "```\na\n```\n\n" * (n // 4), "html-block": lambda n: "<div>\n" + "a\n" * n,
+    "html-blocks": lambda n: "<div>\n\n" * (n // 2), "indent-code": lambda n: "    a\n" * n, "task-items": lambda n: "- [ ] a\n" * n,
+    "ordered-items": lambda n: "".join(f"{i + 1}. a\n" for i in range(n)), "items-loose": lambda n: "- a\n\n" * n, "headings": lambda n: "# a\n" * n,
+    "rules": lambda n: "---\n\n" * n, "alerts": lambda n: "> [!NOTE]\n> a\n\n" * (n // 4), "tag-lines": lambda n: "{% a %}\n" * n,
+    "comment-lines": lambda n: "<!-- a -->\n" * n, "tag-blocks": lambda n: "{% a %}\n\nx\n\n{% /a %}\n\n" * (n // 8),
+    "table-cols": lambda n: "|" + " a |" * n + "\n|" + "---|" * n + "\n", "table-escaped-pipes": lambda n: "| " + "a\\|" * n + " |\n|---|\n",
+    "table-in-para": lambda n: "text\n" + "| a | b |\n" * n,
+}
+# The text whose parse by the dependency ALONE is timed for the attribution (default: the family's own text). Flowmark
+# does not treat a comment line as an HTML block, so marko's inline parser sees the openers; stock marko sees them after "x ".
+DEP_TEXT = {"open-comments": lambda n: "x " + "<!-- " * n}
+# option sets of the pumped families ("any option values": a huge width = one ever-growing line; width 1 = one word per line)
+GROWTH_CONFIGS = {
+    "fill": {"width": 88, "semantic": False}, "sem": {"width": 88, "semantic": True}, "huge": {"width": 10 ** 9, "semantic": False},
+    "w1": {"width": 1, "semantic": True}, "typo": {"width": 88, "semantic": True, "smartquotes": True, "ellipses": True, "cleanups": True},
+}
+# families that get every option set at the quick tier as well
+CORE_FAMILIES = ("words", "sentences", "lines", "pipe-lines", "numbered-lines", "links", "code-spans", "tag-pairs", "quotes", "dots",
+                 "paragraphs", "lt", "open-tags", "open-brackets")
+# Quadratic growth that stock marko shows on its own, by mechanism (listed findings; the dependency is not repairable from here).
+DEP_MECHANISM = {
+    **dict.fromkeys(("space-run", "tab-run", "nbsp-run", "item-spaces", "code-span-spaces", "heading-spaces", "heading-code-spaces",
+                     "table-cell-spaces", "trailing-spaces"), "long-run-of-spaces"),
+    **dict.fromkeys(("ref-links", "ref-defs-only", "task-items"), "block-start-patterns"),
+    **dict.fromkeys(("link-open-paren", "nested-brackets", "footnote-open"), "unclosed-link-openers"),
+    "open-comments": "unclosed-comment-openers",
 }
 _PLACEHOLDER = re.compile(r"\x00AC\d+\x00")
 
@@ -49,12 +110,12 @@ class C12(Prop):
     rule = ("cases: (a) strings of 1..60 atoms drawn from 100 hostile atoms (delimiters, control characters, line-end mixes, "
             "container markers, tag / comment / footnote openers, NUL and a literal placeholder look-alike) x random option "
             "values incl. widths <= 0, 1, huge, all switches, plaintext; (b) G-doc documents with code blocks (trailing-space "
-            "rule); (c) 25 pumped families at n = 128..4096 (thorough ..16384), doubling stops once a point costs 4 s (step counts via sys.monitoring). Non-trivial: input has >= 3 "
+            "rule); (c) 118 pumped families x option sets {width 88 fill, width 88 semantic, width 10**9, width 1, all typography on} (quick: two per family, all five for 14 core families) at n = 128..4096 (thorough ..16384; on to 65536 while a point costs < 1 s), doubling stops once a point costs 4 s; CPU time is split into what stock marko spends parsing the same text alone and the rest (step counts via sys.monitoring). Non-trivial: input has >= 3 "
             "distinct atoms / the family point ran to completion; distinct by hash of (input, options).")
     assumptions = ["time is judged on deterministic step counts (Python function starts inside flowmark and marko) and, as a "
                    "backstop, on a generous per-case CPU budget; regex backtracking inside the C regex engines is visible only "
                    "through the CPU budget and the hard watchdog"]
-    deciding = {"soup": {"quick": 15000, "thorough": 150000}, "growth": {"quick": 60, "thorough": 100}, "codews": 200}
+    deciding = {"soup": {"quick": 15000, "thorough": 150000}, "growth": {"quick": 1200, "thorough": 4000}, "codews": 200}
     soft_timeout = 12.0
     hard_timeout = 40.0
 
@@ -66,7 +127,8 @@ class C12(Prop):
             s = "".join(r.choice(ATOMS) for _ in range(L))
             if r.random() < 0.02:
                 k = r.randint(0, len(s))
-                s = s[:k] + "\x00AC" + str(r.randint(0, 2)) + "\x00" + s[k:]  # text that looks like an internal placeholder
+                num = str(r.randint(0, 2)) if r.random() < 0.8 else "1" * r.choice([12, 5000])
+                s = s[:k] + "\x00AC" + num + "\x00" + s[k:]  # text that looks like an internal placeholder
             o = rand_opts(r, plaintext_p=0.1, widths=[-5, -1, 0, 1, 2, 5, 20, 88, 10 ** 6])
             if r.random() < 0.1:
                 o["width"] = r.choice([-10 ** 9, 10 ** 9, 3, 7])
@@ -79,10 +141,21 @@ class C12(Prop):
             # nesting deeper than the interpreter's recursion limit allows (listed finding KF-C12-recursion-limit)
             yield {"kind": "deepnest"}
         fams = sorted(FAMILIES)
+        cfgs = sorted(GROWTH_CONFIGS)
+        sizes = [128, 256, 512, 1024, 2048, 4096] + ([8192, 16384] if tier == "thorough" else [])
+        # beyond these the doubling goes on (to 65536) only while a point stays cheap: families whose unit costs little
+        # (words, quotes) otherwise never reach a size where quadratic work in C code (joins, len, a regex) shows
+        more = [x for x in (8192, 16384, 32768, 65536) if x > sizes[-1]]
+        jobs = []
         for fi, f in enumerate(fams):
-            if fi % nshards == shard:
-                for sem in (False, True):
-                    yield {"kind": "growth", "family": f, "semantic": sem, "sizes": [128, 256, 512, 1024, 2048, 4096] + ([8192, 16384] if tier == "thorough" else [])}
+            if tier == "thorough" or f in CORE_FAMILIES:
+                mine = cfgs
+            else:  # quick: the two wrapping modes alternate, the other option sets rotate
+                mine = [("fill", "sem")[(fi + seed) % 2], ("huge", "w1", "typo")[(fi + seed) % 3]]
+            jobs += [(f, c) for c in mine]
+        for ji, (f, c) in enumerate(jobs):
+            if ji % nshards == shard:
+                yield {"kind": "growth", "family": f, "config": c, "sizes": sizes, "more": more}
 
     def timeouts(self, case):
         if case.get("kind") in ("growth", "nest"):
@@ -205,12 +278,14 @@ class C12(Prop):
 
     def _check_growth(self, case, col):
         fam = FAMILIES[case["family"]]
+        dep_fam = DEP_TEXT.get(case["family"], fam)
         mon = getattr(sys, "monitoring", None)
         import flowmark
         import marko
         roots = (flowmark.__path__[0], marko.__path__[0])
         steps = {}
         cpus = {}
+        deps = {}
         counter = [0]
         if mon is not None:
             tool = mon.PROFILER_ID
@@ -225,14 +300,28 @@ class C12(Prop):
                 else:
                     return mon.DISABLE
             mon.register_callback(tool, mon.events.PY_START, on_start)
-        for n in case["sizes"]:
+        if "config" in case:
+            cfg_name, opts = case["config"], GROWTH_CONFIGS[case["config"]]
+        else:  # witnesses recorded before the option sets were a dimension
+            opts = {"width": case.get("width", 88), "semantic": case["semantic"]}
+            cfg_name = "sem" if case["semantic"] else "fill"
+        for n in list(case["sizes"]) + list(case.get("more", [])):
+            if n > case["sizes"][-1] and cpus[max(cpus)] > 1.0:
+                break
             col.case()
             text = fam(n)
-            counter[0] = 0
+            # the same instrumentation is on for both measurements, so that its overhead cancels in the difference
             if mon is not None:
                 mon.set_events(tool, mon.events.PY_START)
             t0 = time.process_time()
-            out = fm.fmt(text, width=88, semantic=case["semantic"])
+            try:
+                marko.Markdown(extensions=["gfm", "footnote"]).parse(dep_fam(n))
+            except RecursionError:
+                pass
+            deps[n] = time.process_time() - t0
+            counter[0] = 0
+            t0 = time.process_time()
+            out = fm.fmt(text, **opts)
             cpus[n] = time.process_time() - t0
             if mon is not None:
                 mon.set_events(tool, 0)
@@ -240,11 +329,11 @@ class C12(Prop):
             steps[n] = counter[0]
             col.mon("growth")
             if isinstance(out, fm.Raised):
-                col.violation("growth", f"C12/raised/{out.kind}/{out.where}", dict(case, sizes=[n]), out.text)
+                col.violation("growth", f"C12/raised/{out.kind}/{out.where}", dict(case, sizes=[n], more=[]), out.text)
                 break
-            col.distinct("growth", case["family"], case["semantic"], n)
+            col.distinct("growth", case["family"], cfg_name, n)
             if cpus[n] > 10.0 and len(text) <= 8192:
-                col.violation("growth", "C12/slow/cpu>10s", dict(case, sizes=[n]), {"cpu_s": round(cpus[n], 2), "len": len(text)})
+                col.violation("growth", "C12/slow/cpu>10s", dict(case, sizes=[n], more=[]), {"cpu_s": round(cpus[n], 2), "len": len(text)})
                 break
             if cpus[n] > 4.0:
                 break  # enough to judge the growth; do not double again
@@ -253,31 +342,39 @@ class C12(Prop):
                 mon.free_tool_id(tool)
             except Exception:  # noqa: BLE001
                 pass
-        ns = [n for n in case["sizes"] if n in steps and steps[n] > 0]
+        ns = [n for n in sorted(steps) if steps[n] > 0]
         exps = []
         for a, b in zip(ns, ns[1:]):
             if steps[a] >= 2000:  # ignore the constant-overhead regime
                 exps.append(round(math.log2(steps[b] / steps[a]), 2))
-        col.hist("growth_exponent", f"{case['family']}/{'sem' if case['semantic'] else 'fill'}:{max(exps) if exps else 'n/a'}")
+        col.hist("growth_exponent", f"{case['family']}/{cfg_name}:{max(exps) if exps else 'n/a'}")
         if exps and max(exps[-2:]) > 2.3:
             col.violation("growth", "C12/growth/steps-superquadratic", case, {"steps": steps, "exponents": exps})
-        # CPU-time growth (covers time spent inside the C regex engines, which steps cannot see)
-        big = [n for n in ns if cpus[n] > 0.15]
-        for a, b in zip(big, big[1:]):
-            if b == 2 * a and cpus[b] / cpus[a] > 6.0:
-                col.violation("growth", "C12/growth/cpu-superquadratic", case, {"cpu": {k: round(v, 3) for k, v in cpus.items()}})
-                break
-            if b == 2 * a and cpus[b] / cpus[a] > 3.0 and cpus[b] > 0.8:
-                # time quadruples when the input doubles, at a size where it already costs about a second: not "gentle"
-                desc = "C12/growth/cpu-quadratic"
-                if case["family"] in ("open-comments", "open-tags", "open-vars"):
-                    # listed mechanism: every unclosed opener makes a lazy '.*?' pattern (flowmark's tag patterns and marko's
-                    # inline HTML pattern) scan to the end of the paragraph
-                    desc = "C12/growth/cpu-quadratic/unclosed-tag-or-comment-openers"
-                col.violation("growth", desc, case, {"cpu": {k: round(v, 3) for k, v in cpus.items()}})
-                break
+        # CPU-time growth (covers time spent inside the C regex engines, which steps cannot see), judged separately for what
+        # stock marko spends parsing the same text on its own (the dependency) and for the rest (flowmark's own work)
+        own = {n: max(0.0, cpus[n] - deps[n]) for n in ns}
+        detail = {"cpu": {k: round(v, 3) for k, v in cpus.items()}, "marko_alone": {k: round(v, 3) for k, v in deps.items()}}
+
+        def growth(t):
+            """'super' / 'quadratic' / None for a series of CPU times at doubling sizes."""
+            big = [n for n in ns if t[n] > 0.15]
+            for a, b in zip(big, big[1:]):
+                if b == 2 * a and t[b] / t[a] > 6.0:
+                    return "super"
+                if b == 2 * a and t[b] / t[a] > 3.0 and t[b] > 0.8:
+                    # time quadruples when the input doubles, at a size where it already costs about a second: not "gentle"
+                    return "quadratic"
+            return None
+        g_own, g_dep = growth(own), growth(deps)
+        col.count(f"growth_own_{g_own or 'gentle'}")
+        col.count(f"growth_marko_alone_{g_dep or 'gentle'}")
+        if g_own:
+            col.violation("growth", "C12/growth/cpu-superquadratic" if g_own == "super" else "C12/growth/cpu-quadratic", case, detail)
+        if g_dep:
+            mech = DEP_MECHANISM.get(case["family"], "family-" + case["family"])
+            col.violation("growth", f"C12/growth/cpu-{'super' if g_dep == 'super' else ''}quadratic/in-marko-alone/{mech}", case, detail)
         if col.evaluations % 3 == 0:
-            col.sample({"family": case["family"], "semantic": case["semantic"], "steps": steps, "cpu_s": {k: round(v, 3) for k, v in cpus.items()}})
+            col.sample({"family": case["family"], "config": cfg_name, "steps": steps, **detail})
 
 
 PROP = C12()
